@@ -1227,13 +1227,13 @@ let run_c10 file =
   let ic = open_in file in
   let id = ref "" and fmt = ref "" and expect = ref "" and cbf = ref false and okr = ref false and asg = ref false and wraps = ref false
   and meth = ref "" and typ = ref "" and last = ref "" and nm = ref 0 and kn = ref "" and mt = ref "" and first = ref ""
-  and verify = ref [] and manifest = ref [] and role = ref None and cb = ref None and errmsg = ref "" and seen = ref false in
+  and verify = ref [] and manifest = ref [] and role = ref None and cb = ref None and errmsg = ref "" and seen = ref false and rearmored = ref [] in
   (try
      while true do
        let line = input_line ic in
        let t = Array.of_list (String.split_on_char ' ' line) in
        match t.(0) with
-       | "scase" -> id := t.(1); fmt := unhexs t.(2); expect := ""; cbf := false; okr := false; asg := false; wraps := false;
+       | "scase" -> id := t.(1); fmt := unhexs t.(2); rearmored := []; expect := ""; cbf := false; okr := false; asg := false; wraps := false;
          meth := ""; typ := ""; last := ""; nm := 0; kn := ""; mt := ""; first := ""; verify := []; manifest := []; role := None; cb := None; errmsg := ""; seen := false
        | "sexpect" -> expect := unhexs t.(1); cbf := t.(2) = "1"
        | "sres" -> seen := true; okr := t.(1) = "ok"; asg := t.(2) = "1"; wraps := t.(3) = "1"; errmsg := unhexs t.(4); if not !okr then incr n_err
@@ -1242,7 +1242,8 @@ let run_c10 file =
        | "sapkname" -> kn := unhexs t.(1); mt := unhexs t.(2); first := unhexs t.(3)
        | "sverify" ->
          incr n_v; if t.(3) <> "-" then incr n_gpg;
-         verify := ((unhex t.(1), t.(2) = "1"), (match t.(3) with "1" -> Some true | "0" -> Some false | _ -> None)) :: !verify
+         if t.(3) = "A" then rearmored := unhexs t.(1) :: !rearmored;
+         verify := ((unhex t.(1), t.(2) = "1"), (match t.(3) with "1" -> Some true | "0" | "A" -> Some false | _ -> None)) :: !verify
        | "smanifest" -> manifest := (unhex t.(1), t.(2) = "1") :: !manifest
        | "srole" -> role := Some (unhex t.(1))
        | "scallback" -> incr n_cb; cb := Some (t.(2) = "1")
@@ -1254,9 +1255,12 @@ let run_c10 file =
                      o_keyname = explode !kn; o_maintainer = explode !mt; o_first = explode !first; o_sigs = [];
                      o_verify = List.rev !verify; o_manifest = List.rev !manifest; o_role = !role; o_callback = !cb } in
            let cl = check_C10 o in
+           (* known finding: gpg rejects the cleartext signature as armored but accepts the same packets with a CRC line *)
+           let kf = if cl <> [] && List.for_all (function SVerify (w, who) -> implode who = "gpg" && List.mem (implode w) !rearmored | _ -> false) cl
+             then ["clearsign-armor-without-crc"] else [] in
            if cl <> [] then begin
-             incr n_dis; incr n_fail;
-             report !id false (List.map c10_clause_name cl) []
+             if kf = [] then incr n_dis; incr n_fail;
+             report ~kf !id (kf <> []) (List.map c10_clause_name cl) []
                [Printf.sprintf "%s, expected %s: %s%s" !fmt !expect (if !okr then "package built" else "error: " ^ !errmsg)
                   (if !okr && !fmt = "deb" then Printf.sprintf "; last member %s of %d, method %S type %S" !last !nm !meth !typ
                    else if !okr && !fmt = "apk" then Printf.sprintf "; first member %s, key name %S, maintainer %S" !first !kn !mt else "")]
